@@ -143,6 +143,11 @@ func updateListAndMap(list []types.WorkReportHash, newItems []types.WorkReportHa
 			itemMap[item] = true
 		}
 	}
+	// ψ_g, ψ_b and ψ_w are sets: keep the records ordered by hash so that the
+	// serialized state does not depend on the order in which verdicts arrived
+	sort.Slice(result, func(i, j int) bool {
+		return bytes.Compare(result[i][:], result[j][:]) < 0
+	})
 	return result
 }
 
